@@ -1,27 +1,168 @@
-(** C15: orders as canonical lattices (first version). *)
+(** * C15: orders as canonical lattices: equality, index, union, discriminant.
+
+    An order is its stored basis [b : qmat = list (list Qc)] (rows = basis vectors).  The
+    statements about canonicity use the vocabulary of C02 (MatZ.v): [qshape n n b] (n rows of
+    length n), integer matrices [U : list (list Z)] with [shape n n U], and
+    [qmmul n U b] = the rational matrix U * b (each row an integer combination of the rows of b).
+    Statements about [index] and the discriminant are in terms of the outcomes of the calls the
+    code makes ([determinant fopsQc] is LinAlg's determinant, proved equal to [\det] in C18);
+    [order_index_spec] uses MathComp matrices ([qmx n n a] reads a list of rows as a matrix).
+    The discriminant of the minimal polynomial enters [order_discriminant] as the argument
+    [discf] (see ASSUMPTIONS in vp/props/c15.py). *)
 From RNT.Model Require Import Base Poly Algebraic LinAlg MultTable Order.
-From RNT.Refine Require Import OrderBasic.
-From Coq Require Import QArith Qcanon.
+From RNT.Refine Require Import MatZ OrderBasic OrderIndex OrderLint OrderCanon OrderUnion.
+From Coq Require Import List QArith Qcanon.
+Import ListNotations.
 Open Scope Z_scope.
+
+(** ** canonical form *)
+
+(** [P] lcm_den_invariant: the lcm of the denominators is the least positive d with d * b integral,
+    so it only depends on the set of such d *)
+Theorem lcm_den_multiplier : forall b, all_lint (lcm_den 1 b) b /\ 0 < lcm_den 1 b.
+Proof. intros b. split; [apply lcm_den_lint|apply lcm_den_pos; reflexivity]. Qed.
+Theorem lcm_den_least : forall b d, all_lint d b -> (lcm_den 1 b | d).
+Proof. exact OrderLint.lcm_den_least. Qed.
+Theorem lcm_den_invariant : forall b1 b2,
+  (forall d, all_lint d b1 <-> all_lint d b2) -> lcm_den 1 b1 = lcm_den 1 b2.
+Proof. exact lcm_den_eq. Qed.
+
+(** [P] order_canonical: two n x n rational bases each of which is an integer combination of the
+    other (they generate the same Z-module) are stored identically: [from_basis] has the same
+    outcome on both (the same basis, or the same panic when they are singular) *)
+Theorem order_canonical : forall n U V b1 b2, (1 <= n)%nat ->
+  qshape n n b1 -> shape n n U -> shape n n V ->
+  b2 = qmmul n U b1 -> b1 = qmmul n V b2 -> from_basis b1 = from_basis b2.
+Proof. exact OrderCanon.order_canonical. Qed.
+
+(** [P] the stored form is a fixed point: reducing a stored basis again returns it unchanged *)
+Theorem hnf_reduce_idempotent : forall n b r, (1 <= n)%nat -> qshape n n b ->
+  hnf_reduce b = Done r -> hnf_reduce r = Done r.
+Proof. exact hnf_reduce_idem. Qed.
 
 Theorem from_basis_hnf_reduce : forall b, from_basis b = hnf_reduce b.
 Proof. exact OrderBasic.from_basis_hnf_reduce. Qed.
 
-Definition half : Qc := Qcdiv (qz 1) (qz 2).
-Definition third : Qc := Qcdiv (qz 1) (qz 3).
+Definition qhalf : Qc := Qcdiv (qz 1) (qz 2).
+
+(** Z[3i] inside Q(i) (theta = 1 + 6i) from two bases related by the unimodular U = V = [[1 0] [1 -1]]
+    (rationals compared through their reduced fractions [this]) *)
+Example order_canonical_ex :
+  let b1 := [[qz 1; qz 0]; [qhalf; qhalf]] in
+  let U := [[1; 0]; [1; -1]] in
+  let b2 := qmmul 2 U b1 in
+  map (map this) (qmmul 2 U b2) = map (map this) b1 /\
+  map (map this) b2 = [[1 # 1; 0 # 1]; [1 # 2; -1 # 2]]%Q /\
+  omap (map (map this)) (from_basis b1) = Done [[1 # 1; 0 # 1]; [1 # 2; 1 # 2]]%Q /\
+  omap (map (map this)) (from_basis b2) = Done [[1 # 1; 0 # 1]; [1 # 2; 1 # 2]]%Q.
+Proof. vm_compute. repeat split; reflexivity. Qed.
+
+(** ** index *)
+
+(** [P] the index of a (non-singular) lattice in itself is 1 *)
+Theorem index_self : forall a d,
+  determinant fopsQc a = Done d -> d <> Q2Qc 0 -> order_index a a = Done 1.
+Proof. exact order_index_self. Qed.
+
+(** [P] index_chain: (A:C) = (A:B)(B:C) whenever the two indices on the right are returned *)
+Theorem index_chain : forall a b c i1 i2,
+  order_index a b = Done i1 -> order_index b c = Done i2 -> order_index a c = Done (i1 * i2).
+Proof. exact order_index_chain. Qed.
+
+(** [P] disc_index: disc(B) = (A:B)^2 disc(A); in particular the integrality assertion passes for B
+    when it passes for A *)
+Theorem disc_index : forall m discf a b f i dA,
+  order_index a b = Done i -> order_discriminant m discf a f = Done dA ->
+  order_discriminant m discf b f = Done (i * i * dA).
+Proof. exact OrderIndex.disc_index. Qed.
+
+Definition qthird : Qc := Qcdiv (qz 1) (qz 3).
 
 (** order.rs tests1: Z[3i] and Z[2i] inside Q(i), theta = 1 + 6i; their union has index 6 over Z[theta] *)
 Example union_index_6 :
   (do o <- trivial_order_monic [37; -2; 1];
-   do o1 <- from_basis [[qz 1; qz 0]; [half; half]];
-   do o2 <- from_basis [[qz 1; qz 0]; [Qcmult (qz 2) third; third]];
+   do o1 <- from_basis [[qz 1; qz 0]; [qhalf; qhalf]];
+   do o2 <- from_basis [[qz 1; qz 0]; [Qcmult (qz 2) qthird; qthird]];
    do u <- order_union o1 o2;
    order_index u o) = Done 6.
 Proof. vm_compute. reflexivity. Qed.
 
 Example disc_union :
-  (do o1 <- from_basis [[qz 1; qz 0]; [half; half]];
-   do o2 <- from_basis [[qz 1; qz 0]; [Qcmult (qz 2) third; third]];
+  (do o1 <- from_basis [[qz 1; qz 0]; [qhalf; qhalf]];
+   do o2 <- from_basis [[qz 1; qz 0]; [Qcmult (qz 2) qthird; qthird]];
    do u <- order_union o1 o2;
    order_discriminant Checked (-144) u [37; -2; 1]) = Done (-4).
 Proof. vm_compute. reflexivity. Qed.
+
+(** non-vacuity of index_chain / disc_index: Z[6i] < Z[3i] < Z[i]-ish chain in Q(i) *)
+Example index_chain_ex :
+  let a := [[qz 1; qz 0]; [qhalf; qhalf]] in let b := [[qz 1; qz 0]; [qz 0; qz 1]] in
+  let c := [[qz 1; qz 0]; [qz 0; qz 3]] in
+  order_index a b = Done 2 /\ order_index b c = Done 3 /\ order_index a c = Done 6 /\
+  order_discriminant Checked (-144) a [37; -2; 1] = Done (-36) /\
+  order_discriminant Checked (-144) b [37; -2; 1] = Done (-144).
+Proof. vm_compute. repeat split; reflexivity. Qed.
+
+(** ** union *)
+
+(** [P] union_spec: whenever [union] returns, the stored result r contains both arguments (each is an
+    integer combination of the rows of r) and is contained in their sum (the rows of r are integer
+    combinations of the stacked rows of a and b): r is a basis of the smallest module containing both *)
+Theorem union_spec : forall n a b r, (1 <= n)%nat -> qshape n n a -> qshape n n b ->
+  order_union a b = Done r ->
+  qshape n n r /\
+  (exists Ua, shape n n Ua /\ a = qmmul n Ua r) /\
+  (exists Ub, shape n n Ub /\ b = qmmul n Ub r) /\
+  (exists W, shape n (n + n) W /\ r = qmmul n W (a ++ b)).
+Proof. exact order_union_spec. Qed.
+
+(** [P] commutative (same outcome, including panics) *)
+Theorem union_comm : forall n a b, (1 <= n)%nat -> qshape n n a -> qshape n n b ->
+  order_union a b = order_union b a.
+Proof. exact order_union_comm. Qed.
+
+(** [P] absorbs sub-modules: if B = U A for an integer matrix U, the union is the stored form of A *)
+Theorem union_absorbs : forall n U a b r, (1 <= n)%nat -> qshape n n a -> shape n n U ->
+  b = qmmul n U a -> hnf_reduce a = Done r -> order_union a b = Done r.
+Proof. exact order_union_absorbs. Qed.
+
+(** [P] idempotent *)
+Theorem union_self : forall n a r, (1 <= n)%nat -> qshape n n a ->
+  hnf_reduce a = Done r -> order_union a a = Done r.
+Proof. exact order_union_self. Qed.
+
+Example union_ex :
+  let a := [[qz 1; qz 0]; [qhalf; qhalf]] in let b := [[qz 1; qz 0]; [Qcmult (qz 2) qthird; qthird]] in
+  qshape 2 2 a /\ qshape 2 2 b /\
+  omap (map (map this)) (order_union a b) = Done [[1 # 1; 0 # 1]; [5 # 6; 1 # 6]]%Q /\
+  omap (map (map this)) (order_union b a) = Done [[1 # 1; 0 # 1]; [5 # 6; 1 # 6]]%Q /\
+  omap (map (map this)) (order_union a a) = Done [[1 # 1; 0 # 1]; [1 # 2; 1 # 2]]%Q.
+Proof. repeat split; try (vm_compute; reflexivity); repeat constructor. Qed.
+
+(** ** index = determinant of the change of basis (MathComp matrices; C18's [qmx], [square]) *)
+From mathcomp Require Import all_ssreflect ssralg matrix.
+From mathcomp Require Import ssrZ.
+From RNT.Refine Require Import QcField LinAlgQc OrderDet.
+Local Open Scope ring_scope.
+
+(** [P] index_spec: if B = S A for an integer matrix S and A is non-singular, [index A B] returns det S;
+    together with [index_chain] this is multiplicativity of the index in chains A > B > C *)
+Theorem index_spec (a b : list (list Qc)) (S : 'M[Z]_(length a)) :
+  square a -> square b -> length b = length a ->
+  let n := length a in
+  \det (qmx n n a) != 0 ->
+  qmx n n b = map_mx q_of_Z S *m qmx n n a ->
+  order_index a b = Done (\det S).
+Proof. exact (@order_index_spec a b S). Qed.
+
+(** non-vacuity of [index_spec]: S = 1, A = B = Z[3i] (its determinant is 1/2 by C18's [determinant_ok]) *)
+Example index_spec_ex :
+  let a := [:: [:: qz 1; qz 0]; [:: qhalf; qhalf]] in
+  [/\ square a, \det (qmx 2 2 a) != 0 & qmx 2 2 a = map_mx q_of_Z (1%:M : 'M[Z]_2) *m qmx 2 2 a].
+Proof.
+split.
+- by repeat constructor.
+- have e : LinAlg.determinant fopsQc [:: [:: qz 1; qz 0]; [:: qhalf; qhalf]] = Done qhalf by vm_compute.
+  by rewrite -(determinant_ok e).
+- by rewrite map_mx1 mul1mx.
+Qed.
